@@ -143,10 +143,8 @@ Proof.
         apply orb_true_iff in Hc. destruct Hc as [Hc|Hc].
         -- destruct (o2m_cov_spec _ _ _ _ _ Hc) as [d [A1 [A2 [A3 [A4 [A5 [A6 [A7 A8]]]]]]]].
            apply (cov_o2m_savedel g cy sh d s t); auto.
-        -- apply andb_true_iff in Hc. destruct Hc as [Hc Hg].
-           destruct (m2o_cov_spec _ _ _ _ _ Hc) as [d [A1 [A2 [A3 [A4 [A5 [A6 [A7 A8]]]]]]]].
+        -- destruct (m2o_cov_spec _ _ _ _ _ Hc) as [d [A1 [A2 [A3 [A4 [A5 [A6 [A7 A8]]]]]]]].
            apply (cov_m2o_savedel g cy sh pa d s t); auto.
-           apply orb_true_iff in Hg. destruct Hg as [Hg|Hg]; [left; apply negb_true_iff, Hg|right; apply N.eqb_eq, Hg].
   - (* the pre-update of a row before its own DELETE *)
     apply in_flat_map in Hn. destruct Hn as [s [Hx Hn]]. specialize (Hm3 _ Hx).
     unfold needs_postdel in Hn. unfold mg_postdel in Hm3.
